@@ -50,10 +50,22 @@ import (
 	"iter"
 	"regexp/syntax"
 	"strings"
+	"unicode/utf8"
 	"unsafe"
 
 	"github.com/coregx/coregex/meta"
 )
+
+// advancePastEmpty returns the offset at which scanning resumes after an empty
+// match at pos: one whole UTF-8 sequence forward (an invalid byte counts as a
+// sequence of width 1), exactly as regexp steps over empty matches.
+func advancePastEmpty(haystack []byte, pos int) int {
+	if pos >= len(haystack) {
+		return pos + 1
+	}
+	_, width := utf8.DecodeRune(haystack[pos:])
+	return pos + width
+}
 
 // stringToBytes converts string to []byte without allocation.
 // This is the Go equivalent of Rust's str.as_bytes() - a zero-cost reinterpret cast.
@@ -804,7 +816,7 @@ func (r *Regex) ReplaceAllLiteral(src, repl []byte) []byte {
 		// This matches Go stdlib behavior (see FindAllIndex for details).
 		//nolint:gocritic // badCond: intentional - checking empty match at lastMatchEnd
 		if start == end && start == lastMatchEnd {
-			pos++
+			pos = advancePastEmpty(src, pos)
 			if pos > len(src) {
 				break
 			}
@@ -827,7 +839,7 @@ func (r *Regex) ReplaceAllLiteral(src, repl []byte) []byte {
 
 		switch {
 		case start == end:
-			pos = end + 1
+			pos = advancePastEmpty(src, end)
 		case end > pos:
 			pos = end
 		default:
@@ -875,7 +887,7 @@ func (r *Regex) ReplaceAllLiteralString(src, repl string) string {
 
 		//nolint:gocritic // badCond: intentional - checking empty match at lastMatchEnd
 		if start == end && start == lastMatchEnd {
-			pos++
+			pos = advancePastEmpty(b, pos)
 			if pos > len(src) {
 				break
 			}
@@ -897,7 +909,7 @@ func (r *Regex) ReplaceAllLiteralString(src, repl string) string {
 
 		switch {
 		case start == end:
-			pos = end + 1
+			pos = advancePastEmpty(b, end)
 		case end > pos:
 			pos = end
 		default:
@@ -1064,7 +1076,7 @@ func (r *Regex) ReplaceAll(src, repl []byte) []byte {
 		// This matches Go's stdlib behavior for preventing duplicate empty matches.
 		//nolint:gocritic // badCond: intentional - checking empty match at lastNonEmptyMatchEnd
 		if absStart == absEnd && absStart == lastNonEmptyMatchEnd {
-			pos++
+			pos = advancePastEmpty(src, pos)
 			if pos > len(src) {
 				break
 			}
@@ -1088,7 +1100,7 @@ func (r *Regex) ReplaceAll(src, repl []byte) []byte {
 		switch {
 		case absStart == absEnd:
 			// Empty match: advance by 1 to avoid infinite loop
-			pos = absEnd + 1
+			pos = advancePastEmpty(src, absEnd)
 		case absEnd > pos:
 			pos = absEnd
 		default:
@@ -1148,7 +1160,7 @@ func (r *Regex) ReplaceAllFunc(src []byte, repl func([]byte) []byte) []byte {
 
 		//nolint:gocritic // badCond: intentional - checking empty match at lastMatchEnd
 		if start == end && start == lastMatchEnd {
-			pos++
+			pos = advancePastEmpty(src, pos)
 			if pos > len(src) {
 				break
 			}
@@ -1170,7 +1182,7 @@ func (r *Regex) ReplaceAllFunc(src []byte, repl func([]byte) []byte) []byte {
 
 		switch {
 		case start == end:
-			pos = end + 1
+			pos = advancePastEmpty(src, end)
 		case end > pos:
 			pos = end
 		default:
@@ -1222,7 +1234,7 @@ func (r *Regex) ReplaceAllStringFunc(src string, repl func(string) string) strin
 
 		//nolint:gocritic // badCond: intentional - checking empty match at lastMatchEnd
 		if start == end && start == lastMatchEnd {
-			pos++
+			pos = advancePastEmpty(b, pos)
 			if pos > len(src) {
 				break
 			}
@@ -1244,7 +1256,7 @@ func (r *Regex) ReplaceAllStringFunc(src string, repl func(string) string) strin
 
 		switch {
 		case start == end:
-			pos = end + 1
+			pos = advancePastEmpty(b, end)
 		case end > pos:
 			pos = end
 		default:
@@ -1495,7 +1507,7 @@ func (r *Regex) AllIndex(b []byte) iter.Seq[[2]int] {
 			// This matches Go stdlib behavior.
 			//nolint:gocritic // badCond: intentional - checking empty match at lastMatchEnd
 			if start == end && start == lastMatchEnd {
-				pos++
+				pos = advancePastEmpty(b, pos)
 				if pos > len(b) {
 					return
 				}
@@ -1507,10 +1519,13 @@ func (r *Regex) AllIndex(b []byte) iter.Seq[[2]int] {
 			if start != end {
 				lastMatchEnd = end
 			}
-			if end == pos {
-				pos++
-			} else {
+			switch {
+			case start == end:
+				pos = advancePastEmpty(b, end)
+			case end > pos:
 				pos = end
+			default:
+				pos++
 			}
 		}
 	}
